@@ -13,6 +13,7 @@ const quickN, thoroughN = 25000, 1500000
 const rule = "programs: 1-4 coroutines (create and wrap) whose generated bodies emit their arguments, keep a local across suspensions, yield payloads of 0-4 values directly, from nested Lua calls of depth 1-6, from loops, " +
 	"resume each other (status normal seen from inside), create closures shared with the main chunk, and end by return / tail call / tail-called yield / error(string|table) / fall-through; " +
 	"the main chunk drives them with a generated history of 4-22 resume / wrapped call / status / running / yield-from-main operations with payloads of 0-4 values, reuses registers in between and finally drains every coroutine; " +
+	"added shapes: a coroutine created inside another one and used after its creator returned / failed / while it is suspended; the thread behind a wrap function (coroutine.running()) driven by coroutine.resume; a host function as body; 199-420 contained wrap failures followed by ordinary use; 150 nested calls and 250-value payloads inside a coroutine; unbounded resume nesting (must end in a catchable error); " +
 	"trace compared with the reference interpreter; non-trivial = >=2 coroutines or >=4 transfers; distinct by source hash"
 
 var assumptions = []string{
